@@ -30,6 +30,9 @@ DEVIATIONS = {
         "MollerBhabhaInteractor (positron) with E within 1e-8 of the electron cut: NaN directions",
     "BremNearCutNegativeEnergy":
         "SB/combined brems with E within 1e-8 of the gamma cut: outgoing kinetic energy < 0",
+    "RotateNearPoleNegativeY":
+        "corecel rotate(): incident direction within sin(theta) < 0.005 of the z axis with negative y: "
+        "exiting directions rotated about the mirrored axis, momentum not conserved",
     "PositronBremNearCutSlowRejection":
         "SB/combined brems, positron with E within 1e-3 of the gamma cut: > 1e5 draws",
 }
